@@ -279,3 +279,137 @@ for _p in proofs_bag:
     _p.contracts = contracts_bag
     refuters[_p.name] = refute_search
 proofs += proofs_bag
+
+
+# ---------------------------------------------------------------------------------------------
+# Baggage::FromHeader over ABSTRACT parts (tokenizer, Trim, UrlDecode, validity predicates, KeyValueProperties as ghost-answering boundary calls; their own
+# contracts: tokenizer and Trim under ./check C14, codec and predicates above): the limits and the filter of the loop, for EVERY header and any number
+# of members (loop invariant): an over-long header yields the default baggage and is not even tokenized; at most min(tokens, 180) members are stored;
+# a member is stored only if it is a valid pair, within the 4096-byte bound, decoded without error, with a valid key and value - and then exactly once.
+FH_PRE = r"""
+size_t g_k;
+unsigned long g_hdr_len;                                  /* length of the header */
+unsigned long g_ntok, g_numtok_calls, g_next_calls, g_alloc_calls, g_alloc_size, g_add_calls, g_default_calls, g_dec_calls;
+int g_it_valid, g_it_big, g_it_err, g_it_vk, g_it_vv;     /* the current member: tokenizer says valid pair, over the 4096-byte bound, decode error, key valid, value valid */
+long g_dec_mode[2]; unsigned long g_bad_mode;     /* extra arguments of the two UrlDecode calls of an iteration (none today); set when a stored member's key and value were decoded differently */
+unsigned long g_adds_at_iter_start, g_bad_add;            /* members stored when the current iteration began; set when a member that must be skipped was stored */
+static void xc_havoc_ghosts(void) { size_t a; unsigned long n, h; g_k = a; g_ntok = n; g_hdr_len = h; g_numtok_calls = g_next_calls = g_alloc_calls = g_alloc_size = g_add_calls = g_default_calls = g_dec_calls = 0; g_adds_at_iter_start = 0; g_bad_add = 0; g_bad_mode = 0; g_dec_mode[0] = g_dec_mode[1] = 0;
+  g_it_valid = g_it_big = g_it_err = g_it_vk = g_it_vv = 0; }
+typedef struct xc_kvp { char xc_unused; } xc_kvp;
+typedef struct xc_tok { char xc_unused; } xc_tok;          /* KeyValueStringTokenizer */
+#define FH_GHOSTS g_numtok_calls, g_next_calls, g_alloc_calls, g_alloc_size, g_add_calls, g_default_calls, g_dec_calls, g_it_valid, g_it_big, g_it_err, g_it_vk, g_it_vv, g_adds_at_iter_start, g_bad_add, g_bad_mode, __CPROVER_object_whole(g_dec_mode)
+#define MAXPAIRS 180UL
+#define MAXPAIR 4096UL
+#define MAXHDR 8192UL
+"""
+FH_POST = r"""
+static Baggage xc_o_new_b, xc_o_default_b; static xc_kvp xc_o_new_kv; static char xc_o_buf[4];
+static xc_tok xc_tok_new(string_view header) { xc_tok t; t.xc_unused = 0; return t; }
+static unsigned long xc_tok_NumTokens(const xc_tok *t) { g_numtok_calls++; return g_ntok; }
+/* next(valid, key, value): whether there is another member; the member's key/value are views of total length <= 4096 exactly when !g_it_big */
+static bool xc_tok_next(xc_tok *t, bool *valid, string_view *key, string_view *value)
+{
+  bool more; int v, big; unsigned long kl, vl;
+  g_next_calls++;
+  if (!more) return false;
+  g_it_valid = v != 0; *valid = g_it_valid;
+  __CPROVER_assume(kl <= 70000 && vl <= 70000);
+  g_it_big = (kl + vl > MAXPAIR);
+  key->data_ = xc_o_buf; key->length_ = kl; value->data_ = xc_o_buf; value->length_ = vl;
+  { int e, a, b; g_it_err = e != 0; g_it_vk = a != 0; g_it_vv = b != 0; }
+  g_adds_at_iter_start = g_add_calls;
+  return true;
+}
+static string_view xc_Trim(string_view s) { return s; }
+static unsigned long xc_sv_find(string_view s, char c) { unsigned long r; __CPROVER_assume(r == (unsigned long)-1 || r < s.length_); return r; }
+static string_view xc_sv_substr(string_view s, unsigned long pos, unsigned long n) { string_view r; __CPROVER_assert(pos <= s.length_, "substr: pos within the view"); r.data_ = s.data_; r.length_ = (n < s.length_ - pos) ? n : s.length_ - pos; return r; }
+/* UrlDecode(str, err): the first of the two calls of an iteration may raise the error flag, the second too (it only ever raises it) */
+static xc_sb xc_UrlDecode(string_view s, bool *err, long mode) { xc_sb r; g_dec_mode[g_dec_calls % 2] = mode; g_dec_calls++; if (g_it_err && (g_dec_calls % 2 == 0)) *err = 1; r.data = xc_o_buf; r.len = 0; return r; }
+static bool xc_IsValidKey(string_view k) { return g_it_vk != 0; }
+static bool xc_IsValidValue(string_view v) { return g_it_vv != 0; }
+static void xc_sb_append_n(xc_sb *s, const char *d, unsigned long n) { }
+static Baggage *xc_new_Baggage(unsigned long size) { g_alloc_calls++; g_alloc_size = size; xc_o_new_b.kv_properties_ = &xc_o_new_kv; return &xc_o_new_b; }
+static Baggage *xc_Baggage_GetDefault_ptr(void) { g_default_calls++; return &xc_o_default_b; }
+static unsigned long xc_kv_Size(const xc_kvp *p) { return g_add_calls; }
+static void xc_kv_AddEntry(xc_kvp *p, string_view k, string_view v)
+{ if (!g_it_valid || g_it_big || g_it_err || !g_it_vk || !g_it_vv || g_add_calls != g_adds_at_iter_start) g_bad_add = 1; if (g_dec_mode[0] != g_dec_mode[1]) g_bad_mode = 1; g_add_calls++; }
+"""
+
+
+def _fh_types(em, base, targs, name):
+    if base in ("nostd::unique_ptr", "unique_ptr") and targs and targs[0].strip().endswith("KeyValueProperties"):
+        return common.CT("xc_kvp", 1)
+    if base in ("nostd::shared_ptr", "shared_ptr") and targs and targs[0].strip().split("::")[-1] == "Baggage":
+        inner = em._ctype(targs[0])
+        return common.CT(inner.base, inner.ptr + 1)
+    return None
+
+
+def _configure_fh(cfg):
+    common.strbuild_boundary(cfg)
+    cfg.value_classes |= {"string_view"}
+    cfg.type_handlers.insert(0, _fh_types)
+    cfg.type_map["common::KeyValueStringTokenizer"] = "xc_tok"
+    cfg.opaque_records["common::KeyValueStringTokenizer"] = "xc_tok"
+    unp = lambda r: (r["node"] if isinstance(r, dict) and r.get("xc_is_ptr") else r)
+    pr = lambda em, recv: (em.expr(recv["node"]) if isinstance(recv, dict) and recv.get("xc_is_ptr") else em.addr_of(recv))
+    cfg.ctor_ext["KeyValueStringTokenizer"] = lambda em, node, args: "xc_tok_new(%s)" % em.expr(args[0])
+    cfg.ctor_ext["common::KeyValueStringTokenizer"] = cfg.ctor_ext["KeyValueStringTokenizer"]
+    cfg.ext_q["KeyValueStringTokenizer::NumTokens"] = lambda em, node, recv, args: "xc_tok_NumTokens(%s)" % pr(em, recv)
+    cfg.ext_q["KeyValueStringTokenizer::next"] = lambda em, node, recv, args: "xc_tok_next(%s, %s, %s, %s)" % (pr(em, recv), em.addr_of(args[0]), em.addr_of(args[1]), em.addr_of(args[2]))
+    cfg.ext_q["StringUtil::Trim"] = lambda em, node, recv, args: "xc_Trim(%s)" % em.expr(args[0])
+    cfg.ext_q["string_view::find"] = lambda em, node, recv, args: "xc_sv_find(%s, %s)" % (em.expr(unp(recv)), em.expr(args[0]))
+    cfg.ext_q["string_view::substr"] = lambda em, node, recv, args: "xc_sv_substr(%s, %s, %s)" % (em.expr(unp(recv)), em.expr(args[0]), em.expr(em._default_arg(args[1], None)) if len(args) > 1 and args[1].get("kind") != "CXXDefaultArgExpr" else "(unsigned long)-1")
+    def _dec(em, node, recv, args):
+        # further (today: no) arguments select how the decoder works: they are recorded so that key and value can be required to be decoded alike
+        cal = node["inner"][0]
+        while cal.get("kind") != "DeclRefExpr" and cal.get("inner"):
+            cal = cal["inner"][0]
+        md = em.ix.by_id.get(cal.get("referencedDecl", {}).get("id")) or {}
+        md = em.ix.definition_of(md["id"]) if md.get("id") and hasattr(em.ix, "definition_of") else md
+        ps = [p for p in md.get("inner", []) if p.get("kind") == "ParmVarDecl"]
+        extra = []
+        for i, a in enumerate(args[2:], start=2):
+            extra.append("(long)(%s)" % em.expr(em._default_arg(a, ps[i] if i < len(ps) else None)))
+        mode = " * 31 + ".join(extra) if extra else "0L"
+        return "xc_UrlDecode(%s, %s, %s)" % (em.expr(args[0]), em.addr_of(args[1]), mode)
+    cfg.ext_q["Baggage::UrlDecode"] = _dec
+    cfg.ext_q["Baggage::IsValidKey"] = lambda em, node, recv, args: "xc_IsValidKey(%s)" % em.expr(args[0])
+    cfg.ext_q["Baggage::IsValidValue"] = lambda em, node, recv, args: "xc_IsValidValue(%s)" % em.expr(args[0])
+    cfg.ext_q["Baggage::GetDefault"] = lambda em, node, recv, args: "xc_Baggage_GetDefault_ptr()"
+    cfg.ext_q["KeyValueProperties::Size"] = lambda em, node, recv, args: "xc_kv_Size(%s)" % em.expr(unp(recv))
+    cfg.ext_q["KeyValueProperties::AddEntry"] = lambda em, node, recv, args: "xc_kv_AddEntry(%s, %s, %s)" % (em.expr(unp(recv)), em.expr(args[0]), em.expr(args[1]))
+    cfg.ext_q["unique_ptr<common::KeyValueProperties>::operator->"] = lambda em, node, recv, args: em.expr(unp(recv))
+    cfg.ext_q["shared_ptr<baggage::Baggage>::operator->"] = lambda em, node, recv, args: em.expr(unp(recv))
+    cfg.ctor_ext["nostd::shared_ptr"] = lambda em, node, args: (em.expr(args[0]) if args else "NULL")
+    cfg.ext["new"] = lambda em, n: "xc_new_Baggage(%s)" % em.expr([c for c in n.get("inner", []) if c.get("kind") == "CXXConstructExpr"][-1]["inner"][0])
+    for n in ("std::basic_string", "std::__cxx11::basic_string"):
+        cfg.ext_methods[n + "::append"] = lambda em, recv, args, n: "xc_sb_append_n(&(%s), %s, %s)" % (recv, em.expr(args[0]), em.expr(args[1]))
+    # std::string handed to a string_view parameter (IsValidKey(key_str), AddEntry(key_str, ...)): the boundary takes the builder itself
+    cfg.ctor_ext["nostd::string_view"] = None
+
+
+contracts_fh = {"Baggage_FromHeader": {"pre":
+    "__CPROVER_requires(header.length_ == g_hdr_len && g_hdr_len <= 70000 && __CPROVER_is_fresh(header.data_, header.length_))\n"
+    "__CPROVER_assigns(FH_GHOSTS, xc_o_new_b)\n"
+    # an over-long header: the default baggage, nothing is tokenized or stored
+    "__CPROVER_ensures(g_hdr_len > MAXHDR ==> (g_default_calls == 1 && g_numtok_calls == 0 && g_next_calls == 0 && g_alloc_calls == 0 && g_add_calls == 0))\n"
+    # otherwise one baggage is allocated for min(tokens, 180) members and at most that many are stored
+    "__CPROVER_ensures(g_hdr_len <= MAXHDR ==> (g_alloc_calls == 1 && g_alloc_size == (g_ntok > MAXPAIRS ? MAXPAIRS : g_ntok) && g_add_calls <= g_alloc_size && g_add_calls <= MAXPAIRS))\n"
+    # no member that had to be skipped was stored, and no member was stored twice
+    "__CPROVER_ensures(g_bad_add == 0)\n"
+    # the key and the value of a stored member were decoded the same way (the encoder treats them alike)
+    "__CPROVER_ensures(g_bad_mode == 0)\n",
+    "loops": {1: "__CPROVER_assigns(FH_GHOSTS, kv_valid, key, value)\n"
+                 "__CPROVER_loop_invariant(g_bad_mode == 0 && g_bad_add == 0 && g_add_calls <= cnt && cnt <= MAXPAIRS && g_alloc_calls == 1 && g_alloc_size == cnt && g_default_calls == 0 && g_dec_calls % 2 == 0)\n"}}}
+_pfh = Proof("FromHeader_limits", [("Baggage::FromHeader", 1)], enforce="Baggage_FromHeader", timeout=600, configure=_configure_fh,
+             desc="FromHeader for every header: 8192-byte header limit, at most min(tokens, 180) members, 4096-byte member bound, only valid error-free members stored, each once")
+_pfh.pre_c = FH_PRE
+_pfh.post_struct_c = FH_POST
+_pfh.spec_headers = ("xc_strbuild.h",)
+_pfh.force_records = ("nostd::string_view",)
+_pfh.own_config = True
+_pfh.contracts = contracts_fh
+_pfh.defines_c = "#define XC_SB_CAP 8\n"
+proofs.append(_pfh)
+refuters[_pfh.name] = refute_search
